@@ -198,6 +198,22 @@ def run(ctx):
         if got != want:
             ctx.spec_fail('recast(melt)|identity', 'recast(melt(t)) does not reproduce t sorted by key with sorted variable fields',
                           {'table': repr(T), 'key': repr(kf), 'got': got, 'want': want})
+        # the variables named up front, in any order (variablefield={'variable': [...]}), and melt with its variables listed
+        # explicitly in any order: same cells, fields in the order given
+        if len(T) > 1 and len(vf) >= 2:
+            order = list(vf)
+            rng.shuffle(order)
+            try:
+                got2 = util.show_out(*util.collect(etl.recast(etl.melt(T, key=list(kf), variables=list(reversed(order))), key=list(kf),
+                                                              variablefield={'variable': order})))
+                want2 = util.show_out(*util.collect(etl.cut(etl.sort(T, key=list(kf)), *(list(kf) + order))))
+            except Exception as e:   # noqa
+                got2, want2 = 'ERR', repr(e)
+            ctx.case(('identity-named-variables', repr(T), repr(order)))
+            ctx.count('op:recast∘melt identity (variables named)')
+            if got2 != want2:
+                ctx.spec_fail('recast(melt)|identity|named-variables', 'recast(melt(t, variables=...), variablefield={...: names}) does not reproduce t with the fields in the order named',
+                              {'table': repr(T), 'key': repr(kf), 'variables': repr(order), 'got': got2, 'want': want2})
 
 
 def replay(d):
